@@ -25,7 +25,7 @@ from ..engine.report import AnalysisError, Run
 from ..engine.resolver import ClassInfo, FuncInfo, Program, body_walk
 from ..engine.normalize import positional
 from ..engine.util import canon, method_call, u
-from ._c06_util import Flow, cmp_eval, lifted, pruned, spliced
+from ._c06_util import Flow, cmp_eval, indent_of, lifted, names_eq, pruned, seg, spliced, src_patch, stmt_patch
 from .c13 import _self_fields, step_classes
 
 ENGINE = "timeseries.formula_engine._formula_engine"
@@ -873,7 +873,6 @@ def check_model(run: Run, prog: Program, seed: int, max_ops: int = 4) -> None:
     program is evaluated over the rationals at three points and compared with Python's own parse of
     the same infix string.  This discharges the lemma "operator-precedence parsing is determined
     by the pairwise relation" for the extracted matrix instead of assuming it."""
-    import itertools
     import random
     from fractions import Fraction
 
@@ -985,24 +984,211 @@ def check_model(run: Run, prog: Program, seed: int, max_ops: int = 4) -> None:
     run.sample({"model_check": {"expressions": total, "disagreements": bad, "max_operators": max_ops}})
 
 
-CONTROLS = [
-    ("two precedences swapped", ENGINE, '    "/": 5,\n    "*": 6,\n    "-": 7,\n    "+": 8,',
-     '    "/": 5,\n    "*": 7,\n    "-": 6,\n    "+": 8,', "C05.PREC"),
-    ("< became <= in the unwinding loop", ENGINE,
-     "                if op_prec < _operator_precedence[repr(prev_step)]:",
-     "                if op_prec <= _operator_precedence[repr(prev_step)]:", "C05.PREC"),
-    ("operands swapped in Subtractor", STEPS, "        res = val1 - val2\n", "        res = val2 - val1\n", "C05.STEP"),
-    ("minus mapped to Adder", ENGINE,
-     '        elif oper == "-":\n            self._build_stack.append(Subtractor())',
-     '        elif oper == "-":\n            self._build_stack.append(Adder())', "C05.TAB"),
-    ("left paren dropped in _push", ENGINE,
-     '        self._steps.appendleft((TokenType.OPER, "("))\n        self._steps.append((TokenType.OPER, ")"))\n        self._steps.append((TokenType.OPER, oper))',
-     '        self._steps.append((TokenType.OPER, oper))', "C05.PAREN"),
-    ("builder operand not parenthesised", ENGINE,
-     '            self._steps.append((TokenType.OPER, "("))\n            self._steps.extend(other._steps)  # pylint: disable=protected-access\n            self._steps.append((TokenType.OPER, ")"))',
-     '            self._steps.extend(other._steps)  # pylint: disable=protected-access', "C05.PAREN"),
-    ("steps applied in reverse", EVAL, "        for step in self._steps:", "        for step in reversed(self._steps):", "C05.EVAL"),
-]
+def check_tok(run: Run, prog: Program) -> None:
+    """C05.TOK: the character iterator under the tokenizer reads `self.<S>[self.<P>]` only while `<P>` is
+    below a bound, and that bound is the length of the very string being indexed (`len` of the value
+    stored in `<S>`): a bound taken from any other string cuts the formula short or overruns it."""
+    cls = prog.cls(f"{TOK}:StringIter")
+    init = prog.resolve_method(cls, "__init__")
+    if init is None:
+        raise AnalysisError(f"{cls.qual}.__init__ not found")
+    ifl = Flow(prog, init)
+
+    def stored(attr: str) -> list[tuple[int, ast.AST]]:
+        out = []
+        for n in ifl.cfg.nodes:
+            a = n.ast
+            if n.id in ifl.live and n.kind == "stmt" and isinstance(a, (ast.Assign, ast.AnnAssign)) and a.value is not None:
+                tgts = a.targets if isinstance(a, ast.Assign) else [a.target]
+                if any(isinstance(t, ast.Attribute) and t.attr == attr and u(t.value) == "self" for t in tgts):
+                    out.append((n.id, a.value))
+        return out
+
+    def self_attr(e: ast.AST) -> str | None:
+        return e.attr if isinstance(e, ast.Attribute) and u(e.value) == "self" else None
+
+    reads = 0
+    for m in cls.methods.values():
+        fl = Flow(prog, m)
+        run.analysed(m.qual)
+        for n in fl.cfg.nodes:
+            if n.ast is None or n.id not in fl.live:
+                continue
+            for part in own_parts(n):
+                for x in ast.walk(part):
+                    if not (isinstance(x, ast.Subscript) and isinstance(x.ctx, ast.Load) and self_attr(x.value) and self_attr(x.slice)):
+                        continue
+                    s_attr, p_attr = self_attr(x.value), self_attr(x.slice)
+                    reads += 1
+                    bounds: set[str] = set()
+
+                    def atom_for(pos: int, lim: int) -> Any:
+                        def val(e: ast.AST, nid: int) -> int | None:
+                            if self_attr(e) == p_attr:
+                                return pos
+                            if isinstance(e, ast.Call) and u(e.func) == "len" and len(e.args) == 1 and self_attr(e.args[0]) == s_attr:
+                                bounds.add(f"len(self.{s_attr})")
+                                return lim
+                            a = self_attr(e)
+                            if a is not None and a not in (p_attr, s_attr):
+                                bounds.add(a)
+                                return lim
+                            if isinstance(e, ast.Name):
+                                o = fl.origin1(e, nid)
+                                if o is not None and o.kind == "expr" and o.node is not None and o.nid is not None and not isinstance(o.node, ast.Name):
+                                    return val(o.node, o.nid)
+                            return None
+
+                        def atom(e: ast.AST, nid: int) -> bool | None:
+                            if isinstance(e, ast.Compare) and len(e.ops) == 1:
+                                a, b = val(e.left, nid), val(e.comparators[0], nid)
+                                if a is not None and b is not None:
+                                    return cmp_eval(e.ops[0], a, b)
+                            return None
+                        return lifted(fl, atom)
+
+                    inside = fl.cfg.path(fl.cfg.entry, [n.id], edge_ok=pruned(fl.cfg, atom_for(4, 5), normal_only=False)) is not None
+                    at_end = fl.cfg.path(fl.cfg.entry, [n.id], edge_ok=pruned(fl.cfg, atom_for(5, 5), normal_only=False)) is None
+                    beyond = fl.cfg.path(fl.cfg.entry, [n.id], edge_ok=pruned(fl.cfg, atom_for(6, 5), normal_only=False)) is None
+                    # every attribute used as the bound holds len(<the string stored in S>)
+                    same = True
+                    s_vals = stored(s_attr or "")
+                    for b in sorted(bounds):
+                        if b.startswith("len("):
+                            continue
+                        b_vals = stored(b)
+                        same = same and len(b_vals) == 1 and len(s_vals) == 1
+                        if same:
+                            bn, bv = b_vals[0]
+                            arg = bv.args[0] if isinstance(bv, ast.Call) and u(bv.func) == "len" and len(bv.args) == 1 and not bv.keywords else None
+                            same = arg is not None and (
+                                (self_attr(arg) == s_attr and ifl.cfg.path(ifl.cfg.entry, [bn], avoid=[s_vals[0][0]]) is None)
+                                or names_eq(ifl.origin(arg, bn), ifl.origin(s_vals[0][1], s_vals[0][0])))
+                        # ... and nothing else ever re-assigns the string or its bound
+                        for other in cls.methods.values():
+                            if other is not init and any(isinstance(t, ast.Attribute) and isinstance(t.ctx, (ast.Store, ast.Del))
+                                                         and t.attr in (b, s_attr) and u(t.value) == "self" for t in ast.walk(other.node)):
+                                same = False
+                    run.check(inside and at_end and beyond and bool(bounds) and same, "C05.TOK", m.qual,
+                              f"self.{s_attr}[self.{p_attr}] only while self.{p_attr} < len(self.{s_attr})",
+                              f"the characters of the formula are read as self.{s_attr}[self.{p_attr}] but the end position "
+                              f"({sorted(bounds) or 'none'}) is not the length of that same string: the tail of the formula is cut off "
+                              "(or the read overruns)", node=x, file=m.file,
+                              instance=f"{m.qual}: self.{s_attr}[self.{p_attr}] read #{reads}")
+    if reads < 2:
+        raise AnalysisError(f"C05.TOK: only {reads} indexed reads found in StringIter")
+    p_init = stored("_pos") if any(True for _ in stored("_pos")) else []
+    run.check(bool(p_init) and all(isinstance(v, ast.Constant) and v.value == 0 for _n, v in p_init), "C05.TOK", init.qual,
+              "reading starts at position 0", "the iterator does not start at the first character", node=init.node, file=init.file)
+
+
+def build_controls(prog: Program) -> list[tuple[str, str, str, str, str]]:
+    """Seeded in-memory controls cut out of the live source at structurally located anchors."""
+    import re
+
+    from .c06 import interchange_patch
+
+    out: list[tuple[str, str, str, str, str]] = []
+
+    def add(name: str, module: str, patch: tuple[str, str] | None, rule: str) -> None:
+        if patch is not None:
+            out.append((name, module, patch[0], patch[1], rule))
+
+    def walk(fn: Any, typ: Any) -> list[Any]:
+        return [x for x in ast.walk(fn.node) if isinstance(x, typ)]
+
+    eng = prog.module(ENGINE)
+    # PREC: two precedences swapped in the table
+    tab = eng.assigns.get("_operator_precedence")
+    if isinstance(tab, ast.Dict):
+        vals = {k.value: v for k, v in zip(tab.keys, tab.values) if isinstance(k, ast.Constant) and isinstance(v, ast.Constant)}
+        if "*" in vals and "-" in vals:
+            a, b = vals["*"].value, vals["-"].value
+
+            def swap(t: str, a: Any = a, b: Any = b) -> str:
+                t = re.sub(r'(["\']\*["\']\s*:\s*)' + str(a) + r"\b", r"\g<1>@@B@@", t)
+                t = re.sub(r'(["\']-["\']\s*:\s*)' + str(b) + r"\b", r"\g<1>" + str(a), t)
+                return t.replace("@@B@@", str(b))
+
+            add("two precedences swapped", ENGINE, src_patch(eng, tab.lineno, tab.end_lineno or tab.lineno, swap), "C05.PREC")
+    # PREC: `<` -> `<=` in the unwinding loop
+    fb = prog.cls(f"{ENGINE}:FormulaBuilder")
+    done = False
+    for m in fb.methods.values():
+        for w in walk(m, ast.While):
+            for c in (x for x in ast.walk(w) if isinstance(x, ast.Compare) and len(x.ops) == 1 and "_operator_precedence" in u(x)
+                      and isinstance(x.ops[0], (ast.Lt, ast.Gt))):
+                l, r = seg(eng, c.left), seg(eng, c.comparators[0])
+                sym = "<=" if isinstance(c.ops[0], ast.Lt) else ">="
+                add("< became <= in the unwinding loop", ENGINE, stmt_patch(m, c, lambda t, c=c, l=l, r=r, sym=sym: t.replace(seg(eng, c), f"{l} {sym} {r}", 1)), "C05.PREC")
+                done = True
+                break
+            if done:
+                break
+        if done:
+            break
+    # STEP: operands swapped in Subtractor
+    sub = prog.func(f"{STEPS}:Subtractor.apply")
+    for x in walk(sub, ast.BinOp):
+        if isinstance(x.op, ast.Sub):
+            l, r = seg(sub.module, x.left), seg(sub.module, x.right)
+            add("operands swapped in Subtractor", STEPS, stmt_patch(sub, x, lambda t, x=x, l=l, r=r: t.replace(seg(sub.module, x), f"{r} - {l}", 1)), "C05.STEP")
+            break
+    # TAB: minus mapped to Adder
+    po = prog.func(f"{ENGINE}:FormulaBuilder.push_oper")
+    for c in walk(po, ast.Call):
+        if u(c.func) == "Subtractor":
+            add("minus mapped to Adder", ENGINE, stmt_patch(po, c, lambda t: t.replace("Subtractor(", "Adder(", 1)), "C05.TAB")
+            break
+    # PAREN: the left parenthesis around the current expression is dropped; a builder operand is not parenthesised
+    ho = prog.cls(f"{ENGINE}:_BaseHOFormulaBuilder")
+    push = ho.methods.get("_push")
+    left = None
+    for m in ([push] if push is not None else []) + [x for x in ho.methods.values() if x is not push]:
+        for st in walk(m, ast.Expr):
+            if isinstance(st.value, ast.Call) and method_call(st.value, "self._steps", "appendleft"):
+                left = (m, st)
+                break
+        if left:
+            break
+    if left is not None:
+        m, st = left
+        add("left paren dropped in _push", ENGINE, stmt_patch(m, st, lambda t: f"{indent_of(t)}pass\n"), "C05.PAREN")
+    if push is not None:
+        parents = {ch: par for par in ast.walk(push.node) for ch in ast.iter_child_nodes(par)}
+        for st in walk(push, ast.Expr):
+            if isinstance(st.value, ast.Call) and method_call(st.value, "self._steps", "extend"):
+                suite = getattr(parents.get(st), "body", [])
+                opens = [x for x in suite if isinstance(x, ast.Expr) and isinstance(x.value, ast.Call) and method_call(
+                    x.value, "self._steps", "append") and '"("' in u(x.value).replace("'", '"') and x.lineno < st.lineno]
+                if opens:
+                    add("builder operand not parenthesised", ENGINE, stmt_patch(push, opens[-1], lambda t: f"{indent_of(t)}pass\n"), "C05.PAREN")
+                break
+    # EVAL: steps applied in reverse
+    ev = prog.cls(f"{EVAL}:FormulaEvaluator")
+    done = False
+    for m in ev.methods.values():
+        for f in walk(m, ast.For):
+            if u(f.iter) == "self._steps":
+                add("steps applied in reverse", EVAL, src_patch(m.module, f.lineno, f.iter.end_lineno or f.lineno,
+                                                          lambda t: t.replace("self._steps", "reversed(self._steps)", 1)), "C05.EVAL")
+                done = True
+                break
+        if done:
+            break
+    # TOK: end position taken from a different string
+    si = prog.resolve_method(prog.cls(f"{TOK}:StringIter"), "__init__")
+    if si is not None:
+        for c in walk(si, ast.Call):
+            if u(c.func) == "len" and len(c.args) == 1:
+                arg = seg(si.module, c.args[0])
+                add("end position from the stripped string", TOK, stmt_patch(si, c, lambda t, arg=arg: t.replace(f"len({arg})", f"len({arg}.strip())", 1)), "C05.TOK")
+                break
+    # ALIGN: drain loops of the first-run synchronisation interchanged
+    add("drain loops interchanged", EVAL, interchange_patch(prog), "C05.ALIGN")
+    if len(out) < 8:
+        raise AnalysisError(f"C05: only {len(out)} of 9 seeded controls could be derived from the source ({[o[0] for o in out]})")
+    return out
 
 
 def run_rules(run: Run, prog: Program) -> None:
@@ -1011,6 +1197,10 @@ def run_rules(run: Run, prog: Program) -> None:
     check_step(run, prog)
     check_paren(run, prog)
     check_eval(run, prog)
+    check_tok(run, prog)
+    from .c06 import check_sync as first_run_sync
+
+    first_run_sync(run, prog, rule="C05.ALIGN")
 
 
 def check(run: Run, prog: Program, tier: str) -> str:
@@ -1021,6 +1211,9 @@ def check(run: Run, prog: Program, tier: str) -> str:
     run.rule("C05.STEP", "each step computes first-pushed OP last-pushed and leaves exactly one value")
     run.rule("C05.PAREN", "HO builder: X -> ( X ) op Y with Y atom or ( Y' ), for several shapes of Y'")
     run.rule("C05.EVAL", "all steps applied in order on a fresh stack; one residual; LIFO finalize; shared fetcher")
+    run.rule("C05.TOK", "the tokenizer's character iterator reads string[pos] only while pos < len(that same string), from 0")
+    run.rule("C05.ALIGN", "the values combined by one evaluation belong to one timestamp: the first-run synchronisation advances "
+             "every stream of every lagging group (shared with C06.SYNC)")
     run_rules(run, prog)
     if tier == "thorough":
         check_model(run, prog, run.seed, max_ops=5)
@@ -1031,9 +1224,11 @@ def check(run: Run, prog: Program, tier: str) -> str:
     run.floor("C05.STEP", 10)
     run.floor("C05.PAREN", 40)
     run.floor("C05.EVAL", 6)
+    run.floor("C05.TOK", 3)
+    run.floor("C05.ALIGN", 4)
     from ..engine.controls import run_controls
 
-    run_controls(run, CONTROLS, run_rules, tier)
+    run_controls(run, [] if run.violations else build_controls(prog), run_rules, tier)
     run.assume("operator-precedence parsing is determined by the pairwise shift/reduce relation; the "
                "'either' cells are re-associations valid in real arithmetic (property: up to rounding)")
     run.undecided("float rounding; tokenizer behaviour on malformed strings")
